@@ -32,7 +32,8 @@ func (s *Set) patchLevel(pu reflect.Value, td *corpus.TypeDef, f string) (reflec
 		itd := s.Schema.Lookup(inc)
 		emb := pu.FieldByName(itd.Name + "_PartialUpdate")
 		if !emb.IsValid() {
-			continue
+			// the root-module generator flattens inherited fields into the including record's own patch struct
+			emb = pu
 		}
 		if lv, ltd, ok := s.patchLevel(emb, itd, f); ok {
 			return lv, ltd, true
@@ -80,7 +81,11 @@ func (s *Set) buildPatch(pu reflect.Value, td *corpus.TypeDef, p *Patch) error {
 		if !ok {
 			return fmt.Errorf("no patch level for field %s", name)
 		}
-		dst := lv.FieldByName("Delete_Fields").FieldByName(corpus.GoFieldName(name))
+		df := lv.FieldByName("Delete_Fields")
+		if !df.IsValid() {
+			return fmt.Errorf("inexpressible: no Delete_Fields at the level of %s", name)
+		}
+		dst := df.FieldByName(corpus.GoFieldName(name))
 		if !dst.IsValid() {
 			return fmt.Errorf("inexpressible: Delete_Fields has no member for %s", name)
 		}
@@ -129,7 +134,9 @@ func (s *Set) readPatch(pu reflect.Value, td *corpus.TypeDef, p *Patch) {
 		if m := setF.FieldByName(g); m.IsValid() && !m.IsNil() {
 			p.Set[f.Name] = s.read(m, f.Type)
 		}
-		if m := delF.FieldByName(g); m.IsValid() && m.Bool() {
+		// (the root-module generator omits Delete_Fields for records without deletable fields)
+		if !delF.IsValid() {
+		} else if m := delF.FieldByName(g); m.IsValid() && m.Bool() {
 			p.Delete[f.Name] = true
 		}
 		if _, ftd := model.Resolve(s.Schema, f.Type); ftd != nil && ftd.Kind == "record" && f.Type.Ref != "" {
